@@ -285,6 +285,12 @@ func parseCompactedPayload(jwsPayload string, opts *jwsParseOpts) ([]byte, error
 		return nil, fmt.Errorf("decode base64 payload: %w", err)
 	}
 
+	// the signing input is rebuilt from the decoded payload: accept only the canonical encoding of it
+	// (no ignored line breaks, no non-zero trailing bits), so that the received segment is what was signed.
+	if base64.RawURLEncoding.EncodeToString(payload) != jwsPayload {
+		return nil, errors.New("decode base64 payload: not a canonical base64url encoding")
+	}
+
 	return payload, nil
 }
 
